@@ -205,6 +205,8 @@ pub struct Job {
     /// `chunk == 0`, and the second level below the first alterations `i` with `i % chunks == chunk`
     pub chunk: usize,
     pub chunks: usize,
+    /// run on the chain with a single-transaction block range
+    pub sparse: bool,
 }
 
 fn other_blocks(chain: &Chain, n: u64) -> Vec<(String, u64, u64)> {
@@ -288,12 +290,13 @@ fn self_made_subs(chain: &Chain, fmt: Fmt, honest: &Resp) -> Vec<SelfMadeSub> {
     let mut v = vec![];
     for start in [0u64, RANGE_LEN, 2 * RANGE_LEN] {
         let key = (start, start + RANGE_LEN);
-        let b = chain.blocks.iter().find(|b| *b.block_number == start + 1).expect("block of the range");
-        let b0 = chain.blocks.iter().find(|b| *b.block_number == start).expect("first block of the range");
+        let in_range: Vec<&mithril_common::entities::CardanoBlockWithTransactions> = chain.blocks_in(start..start + RANGE_LEN).collect();
+        let Some(b0) = in_range.first().copied() else { continue };
+        let b = in_range.get(1).copied().unwrap_or(b0);
         let made_up = match fmt {
             Fmt::Legacy => Item::Hash(format!("tx-hash-not-on-chain-{start}")),
             Fmt::TxV2 => Item::Tx { th: format!("tx-hash-not-on-chain-{start}"), bh: b.block_hash.clone(), n: *b.block_number, s: *b.slot_number },
-            Fmt::BlockV2 => Item::Block { bh: format!("block-hash-other-fork-{}", start + 1), n: *b.block_number, s: *b.slot_number },
+            Fmt::BlockV2 => Item::Block { bh: format!("block-hash-other-fork-{}", *b.block_number), n: *b.block_number, s: *b.slot_number },
         };
         // a genuine leaf of the range to sit next to the forged one: a proven item of that range if
         // the honest answer has one, the range's first item otherwise
@@ -308,8 +311,8 @@ fn self_made_subs(chain: &Chain, fmt: Fmt, honest: &Resp) -> Vec<SelfMadeSub> {
             .cloned()
             .unwrap_or_else(|| match fmt {
                 Fmt::Legacy => Item::Hash(b0.transactions_hashes[0].clone()),
-                Fmt::TxV2 => Item::Tx { th: b0.transactions_hashes[0].clone(), bh: b0.block_hash.clone(), n: start, s: *b0.slot_number },
-                Fmt::BlockV2 => Item::Block { bh: b0.block_hash.clone(), n: start, s: *b0.slot_number },
+                Fmt::TxV2 => Item::Tx { th: b0.transactions_hashes[0].clone(), bh: b0.block_hash.clone(), n: *b0.block_number, s: *b0.slot_number },
+                Fmt::BlockV2 => Item::Block { bh: b0.block_hash.clone(), n: *b0.block_number, s: *b0.slot_number },
             });
         v.push(SelfMadeSub {
             key,
@@ -440,7 +443,7 @@ pub fn run_job(setup: &Setup, job: &Job) -> JobResult {
                     rep.violation(
                         &format!("C11/{}:honest-answer-misreported", fmt.name()),
                         format!("honest answer ({}) for query {:?} at beacon {}: reported {:?}, expected {:?}; {:?}", base.shape, job.query, job.beacon, got, present, bad),
-                        json!({"part": "sets", "format": fmt.name(), "labels": ["honest"], "wire": wire, "answer": base.resp.describe()}),
+                        json!({"part": "sets", "sparse_chain": job.sparse, "format": fmt.name(), "labels": ["honest"], "wire": wire, "answer": base.resp.describe()}),
                     );
                 }
                 if job.sample && bi == 0 && job.query.len() == 3 {
@@ -455,7 +458,7 @@ pub fn run_job(setup: &Setup, job: &Job) -> JobResult {
                     rep.violation(
                         &format!("C11/{}:honest-answer-rejected", fmt.name()),
                         format!("honest answer ({}) for query {:?} at beacon {} is {why}", base.shape, job.query, job.beacon),
-                        json!({"part": "sets", "format": fmt.name(), "labels": ["honest"], "wire": wire, "answer": base.resp.describe()}),
+                        json!({"part": "sets", "sparse_chain": job.sparse, "format": fmt.name(), "labels": ["honest"], "wire": wire, "answer": base.resp.describe()}),
                     );
                 }
             }
@@ -545,8 +548,31 @@ fn judge(
             };
             let only_leaf_boundary = bad.iter().all(|b| b.0 == "uncertified-item-reported")
                 && r.items.iter().filter(|it| !w.items.contains(it)).all(explained);
-            let key = if classes.contains(&LEAF) && only_leaf_boundary {
+            const MAPKEY: &str = "chars-moved-between-map-key-and-single-leaf";
+            // C11/<fmt>:map-key-and-single-leaf-concatenation only when every false statement is an item whose
+            // leaf is a signed leaf with characters of a key text ("<start>-<end>") glued to its front, or
+            // with leading digits cut off
+            let explained_by_key = |it: &Item| -> bool {
+                let l = it.leaf();
+                w.items.iter().any(|h| {
+                    let hl = h.leaf();
+                    (l.len() > hl.len() && l.ends_with(&hl) && l[..l.len() - hl.len()].iter().all(|c| c.is_ascii_digit() || *c == b'-'))
+                        || (hl.len() > l.len() && hl.ends_with(&l) && hl[..hl.len() - l.len()].iter().all(|c| c.is_ascii_digit()))
+                })
+            };
+            let only_key_boundary = bad.iter().all(|b| b.0 == "uncertified-item-reported")
+                && r.items.iter().filter(|it| !w.items.contains(it)).all(explained_by_key);
+            // both concatenation alterations in one answer: every false item explained by one of the two
+            let both_boundaries = classes.contains(&MAPKEY)
+                && classes.contains(&LEAF)
+                && bad.iter().all(|b| b.0 == "uncertified-item-reported")
+                && r.items.iter().filter(|it| !w.items.contains(it)).all(|it| explained_by_key(it) || explained(it));
+            let key = if classes.contains(&MAPKEY) && only_key_boundary {
+                format!("C11/{}:map-key-and-single-leaf-concatenation", fmt.name())
+            } else if classes.contains(&LEAF) && only_leaf_boundary {
                 KEY_LEAF_NEIGHBOUR.to_string()
+            } else if both_boundaries {
+                format!("C11/{}:map-key-and-single-leaf-concatenation", fmt.name())
             } else {
                 let mut cs = classes.clone();
                 cs.sort();
@@ -568,7 +594,8 @@ fn judge(
             rep.violation(
                 &key,
                 format!(
-                    "{} answer for query {:?} at beacon {} ({shape}), altered by [{}], is reported as certified by {}: {}",
+                    "{}{} answer for query {:?} at beacon {} ({shape}), altered by [{}], is reported as certified by {}: {}",
+                    if job.sparse { "(chain whose block range 15-30 holds a single transaction) " } else { "" },
                     fmt.name(),
                     job.query,
                     job.beacon,
@@ -576,7 +603,7 @@ fn judge(
                     r.cert,
                     bad.iter().map(|b| b.1.clone()).collect::<Vec<_>>().join("; ")
                 ),
-                json!({"part": "sets", "key": key, "format": fmt.name(), "labels": path.iter().map(|a| a.label.clone()).collect::<Vec<_>>(),
+                json!({"part": "sets", "key": key, "sparse_chain": job.sparse, "format": fmt.name(), "labels": path.iter().map(|a| a.label.clone()).collect::<Vec<_>>(),
                        "classes": classes, "wire": wire, "answer": resp.describe()}),
             );
             true
